@@ -224,6 +224,9 @@ func (m *Machine) split(s, sep *Term) Value {
 		return m.strSlice(ts)
 	}
 	maxSep := m.eng.cfg.SliceBound
+	if maxSep < 2 {
+		maxSep = 2 // CAIP-10 account ids and "type.pubkey.signature" proofs have two separators
+	}
 	var parts []*Term
 	rest := s
 	sl := m.in.StrLen(sep)
